@@ -95,6 +95,8 @@ class walk_tree(object):
     def __init__(self, initialCounts=None):
         # Store errors until we know we have an error
         self.mandatory_segs_missing = []
+        self.missing_key_of = {}
+        self.missing_reported = set()
         if initialCounts is None:
             initialCounts = {}
         self.counter = NodeCounter(initialCounts)
@@ -149,6 +151,7 @@ class walk_tree(object):
                                             and self.counter.get_count(sibling.x12path) < 1:
                                         fake_seg = pyx12.segment.Segment('%s' % (sibling.id), '~', '*', ':')
                                         err_str = 'Mandatory segment "%s" (%s) missing' % (sibling.name, sibling.id)
+                                        self._note_missing(sibling)
                                         self.mandatory_segs_missing.append(
                                             (sibling, fake_seg, '3', err_str, seg_count, cur_line, ls_id))
                                     elif orig_node is child \
@@ -159,6 +162,7 @@ class walk_tree(object):
                                         first_seg = sibling.get_first_node()
                                         fake_seg = pyx12.segment.Segment('%s' % (first_seg.id), '~', '*', ':')
                                         err_str = 'Mandatory loop "%s" (%s) missing' % (sibling.name, sibling.id)
+                                        self._note_missing(first_seg)
                                         self.mandatory_segs_missing.append(
                                             (first_seg, fake_seg, '3', err_str, seg_count, cur_line, ls_id))
                                 (
@@ -186,6 +190,7 @@ class walk_tree(object):
                         elif child.usage == 'R' and self.counter.get_count(child.x12path) < 1:
                             fake_seg = pyx12.segment.Segment('%s' % (child.id), '~', '*', ':')
                             err_str = 'Mandatory segment "%s" (%s) missing' % (child.name, child.id)
+                            self._note_missing(child)
                             self.mandatory_segs_missing.append((child, fake_seg, '3', err_str, seg_count, cur_line, ls_id))
                         #else:
                             #logger.debug('Segment %s is not a match for (%s*%s)' % \
@@ -268,6 +273,19 @@ class walk_tree(object):
         errh.add_seg(orig_node, seg_data, seg_count, cur_line, ls_id)
         errh.seg_error('1', err_str, None)
 
+    def _note_missing(self, node):
+        """
+        Remember for which instance of the enclosing loops the node was found
+        missing: the same gap can be seen again on the way out of a sibling
+        loop, and is to be reported once
+        """
+        counts = []
+        loop = node.parent
+        while loop is not None and loop.is_loop():
+            counts.append(self.counter.get_count(loop.x12path))
+            loop = loop.parent
+        self.missing_key_of[node.get_path()] = (node.get_path(), tuple(counts))
+
     def _flush_mandatory_segs(self, errh, cur_pos=None):
         """
         Handle error reporting for any outstanding missing mandatory segments
@@ -278,6 +296,11 @@ class walk_tree(object):
         for (seg_node, seg_data, err_cde, err_str, seg_count, cur_line, ls_id) in self.mandatory_segs_missing:
             # Create errors if not also at current position
             if seg_node.pos != cur_pos:
+                key = self.missing_key_of.get(seg_node.get_path())
+                if key is not None and key in self.missing_reported:
+                    # already reported for this instance of the enclosing loops
+                    continue
+                self.missing_reported.add(key)
                 errh.add_seg(seg_node, seg_data, seg_count, cur_line, ls_id)
                 errh.seg_error(err_cde, err_str, None)
         self.mandatory_segs_missing = [x for x in self.mandatory_segs_missing if x[0].pos == cur_pos]
@@ -321,6 +344,7 @@ class walk_tree(object):
             fake_seg = pyx12.segment.Segment('%s' % (first_child_node.id), '~', '*', ':')
             err_str = 'Mandatory loop "%s" (%s) missing' % \
                 (loop_node.name, loop_node.id)
+            self._note_missing(first_child_node)
             self.mandatory_segs_missing.append((first_child_node, fake_seg,
                                                 '3', err_str, seg_count, cur_line, ls_id))
         return False
